@@ -137,7 +137,7 @@ CLAIMS = {
         "loops. Normalisation: in all seven FormatTo<&FormatterTypst> impls post_process_whitespace dominates the return, nothing is appended afterwards and the "
         "returned value is the processed string; the function itself trims and drops a char only when it and its predecessor are both whitespace. Unambiguity "
         "(necessary conditions only): markup constants pairwise distinct per role, (feature, brackets) injective per category, non-empty connecters/copulas, "
-        "three-way arity layout always emits connecter and all components, atom names go through to_debug. Injectivity over all value pairs is not decided.",
+        "three-way arity layout always emits connecter and all components, atom names go through to_debug, the Sentence accessors the renderer reads (get_punctuation / get_truth / get_stamp / get_term) return the variant's own constant / field. Injectivity over all value pairs is not decided.",
    note="Trusted: rustc HIR/MIR, reviewed table, ToDebug quoting, finite terms."),
  "C02": dict(
    level="other", design="DESIGN.md §4 C02",
